@@ -1376,10 +1376,11 @@ impl MutableArchive {
             Err(_) => return Ok(()), // If can't read, nothing to remove
         };
 
-        // Remove the filename line
+        // Remove the filename line (MPQ names are case-insensitive: the line may spell the name
+        // differently from this call, exactly as update_listfile's "already listed" test assumes)
         let lines: Vec<&str> = current_content
             .lines()
-            .filter(|line| line.trim() != filename)
+            .filter(|line| !line.trim().eq_ignore_ascii_case(filename))
             .collect();
 
         // Write updated listfile back if content changed
